@@ -277,7 +277,7 @@ def r01_5(ctx):
 DEDUP_CALLS = {"dedup", "dedup_by", "dedup_by_key"}
 
 
-def r01_7(ctx, layers):
+def r01_7(ctx, layers, rid="R01.7"):
     def body(r):
         for L in layers:
             ins, mr = L.methods["insert"], L.methods["match_request"]
@@ -303,9 +303,11 @@ def r01_7(ctx, layers):
                         union.update(src_b)
             both = multi & union
             dedup = False
+            # (Vec::dedup* only removes *adjacent* repeats: it de-duplicates a union only after a sort of the same vector)
+            sorted_before_dedup = any(cal and cal.name in ("sort", "sort_by", "sort_by_key", "sort_unstable", "sort_unstable_by", "sort_unstable_by_key", "sort_by_cached_key") for g in mr.all_bodies() for bi, t, cal in g.calls())
             for g in mr.all_bodies():
                 for bi, t, cal in g.calls():
-                    if cal and (cal.name in DEDUP_CALLS or (cal.name == "insert" and cal.adt in ("std::collections::HashSet", "std::collections::BTreeSet", "std::collections::HashMap", "std::collections::BTreeMap") and g is not mr) or (cal.name == "insert" and cal.adt in ("std::collections::HashSet", "std::collections::BTreeSet"))):
+                    if cal and ((cal.name in DEDUP_CALLS and sorted_before_dedup) or (cal.name == "insert" and cal.adt in ("std::collections::HashSet", "std::collections::BTreeSet", "std::collections::HashMap", "std::collections::BTreeMap") and g is not mr) or (cal.name == "insert" and cal.adt in ("std::collections::HashSet", "std::collections::BTreeSet"))):
                         dedup = True
             key = "union:%s" % L.short
             if both:
@@ -313,7 +315,7 @@ def r01_7(ctx, layers):
                      "a route is placed in several `%s` buckets and match_request unions several of them: %s" % (",".join(sorted(both)), "results are de-duplicated" if dedup else "no de-duplication -> a rule can be reported more than once"))
             else:
                 r.ob(key, True, mr.site, "no bucket is both multiply fed (%s) and unioned in a loop (%s)" % (sorted(multi), sorted(union)))
-    ctx.run_rule("R01.7", "duplicate-free union of buckets", body, floor=6)
+    ctx.run_rule(rid, "duplicate-free union of buckets", body, floor=6)
 
 
 # ---------------------------------------------------------------------------------------
